@@ -249,6 +249,8 @@ class SubCheck:
     pinned: Optional[Callable[[], Iterable[Any]]] = None   # regression cases always run first (all tiers, shard 0)
     timeout_s: Dict[str, int] = dataclasses.field(default_factory=lambda: {"quick": 1500, "thorough": 6 * 3600})
     env: Dict[str, str] = dataclasses.field(default_factory=dict)
+    fuzz_decode: Optional[Callable[[Any], Any]] = None     # Atheris: FuzzedDataProvider -> case (sub-check is a fuzz campaign)
+    fuzz_seeds: Optional[Callable[[], Iterable[bytes]]] = None   # seed corpus for the odd-numbered shards (even ones start empty)
 
 
 # ----------------------------------------------------------------------------- known findings
